@@ -4,5 +4,5 @@ seed=${1:-1}
 for c in C20 C18 C19 C06 C07 C17 C10 C11 C12 C02 C08 C01 C09 C05; do
   echo "=== $c thorough seed=$seed $(date +%T)"
   VERIF_SEED=$seed ./check $c --tier thorough 2>&1 | egrep "^\[|VIOLATION|HARNESS|KNOWN|rc=" | cut -c1-400
-  echo "rc=$?"
+  echo "rc=${PIPESTATUS[0]}"
 done
